@@ -6,6 +6,7 @@ pub mod c09;
 pub mod pool_props;
 pub mod c11;
 pub mod c12;
+pub mod c13;
 pub mod c15;
 pub mod c16;
 pub mod c17;
@@ -23,6 +24,7 @@ pub fn run(ctx: &mut Ctx) -> Result<(), String> {
         "C09" => c09::run(ctx),
         "C11" => c11::run(ctx),
         "C12" => c12::run(ctx),
+        "C13" => c13::run(ctx),
         "C15" => c15::run(ctx),
         "C16" => c16::run(ctx),
         "C17" => c17::run(ctx),
